@@ -88,13 +88,12 @@ def retryOf (ret : Option Retries) : Option (Nat × Nat) :=
   | some r => if r.current > 0 then some (r.current, r.current + r.left) else none
   | none => none
 
-/-- `test_case_name`: a path-less feature bumps the counter ON EVERY CALL (finding F-C14a) -/
+/-- `test_case_name`: a path-less feature is named by the running number of path-less features, which is bumped
+    when such a feature STARTS (since the `fix:` for F-C14a; before, it was bumped on every call) -/
 def Lt.name (s : Lt) (hasPath : Nat → Bool) (k : ScenKey) (ret : Option Retries) (st : LtStep) : Lt × LtName :=
   let retry := retryOf ret
   if hasPath k.feat then (s, ⟨k.feat, none, k.rule, k.scen, retry, st⟩)
-  else
-    let n := s.featuresWithoutPath + 1
-    ({ s with featuresWithoutPath := n }, ⟨k.feat, some n, k.rule, k.scen, retry, st⟩)
+  else (s, ⟨k.feat, some s.featuresWithoutPath, k.rule, k.scen, retry, st⟩)
 
 /-- `expand_cucumber_event` -/
 def Lt.expand (s : Lt) (hasPath : Nat → Bool) : Ev → Lt × List LtRec
@@ -112,6 +111,7 @@ def Lt.expand (s : Lt) (hasPath : Nat → Bool) : Ev → Lt × List LtRec
     (s, [.started n, .failed n])
   | .scen k ret (.bg i r) => stepRec s hasPath k ret true i r
   | .scen k ret (.step i r) => stepRec s hasPath k ret false i r
+  | .featStarted f => (if hasPath f then s else { s with featuresWithoutPath := s.featuresWithoutPath + 1 }, [])
   | _ => (s, [])
 where
   stepRec (s : Lt) (hasPath : Nat → Bool) (k : ScenKey) (ret : Option Retries) (bg : Bool) (i : Nat) (r : StepRes) : Lt × List LtRec :=
